@@ -146,11 +146,13 @@ void ebpps_sample<T,A>::merge(FwdSample&& other) {
   if (c_frac == 0.0 && other_c_frac == 0.0) {
     partial_item_.reset();
   } else if (c_frac + other_c_frac == 1.0 || c_ == std::floor(c_)) {
-    if (next_double() <= c_frac) {
-      if (partial_item_)
+    // c_ can also be integral because fractional parts that add up to almost
+    // nothing were lost in the addition: then no item becomes a full item
+    if (c_frac + other_c_frac >= 0.5) {
+      const bool use_this = next_double() <= c_frac;
+      if (partial_item_ && (use_this || !other.partial_item_))
         data_.emplace_back(std::move(*partial_item_));
-    } else {
-      if (other.partial_item_)
+      else if (other.partial_item_)
         data_.emplace_back(conditional_forward<FwdSample>(*other.partial_item_));
     }
     partial_item_.reset();
